@@ -140,7 +140,7 @@ BP('C03', 'rf-c03-3', 'rf-c03-3.diff',
 BP('C03', 'rf-c03-4', 'rf-c03-4.diff',
    'independent refactoring: Chain-walk driver. CertificateVerifier::verify_certificate_chain (default trait method): `while let Some(prev) = self.verify_certificate(&certificate).await? { certificate = prev } Ok(())` becomes an explicit `loop { match self.verify_certificate(&current_certificate).await? { Some(prev) => current_')
 BP('C07', 'rf-c07-1', 'rf-c07-1.diff',
-   'independent refactoring: KesVerifierStandard::verify (mithril-common/src/crypto_helper/cardano/kes/verifier_standard.rs): the computation of the accepted KES-evolutions window (announced value +/- 1, capped at 64) is extracted into a new private associated function `accepted_kes_evolutions_window` returning a RangeInclusive')
+   'the refactoring of an independent sub-agent (KES evolution window extracted into an associated helper returning a RangeInclusive, the clamp constant named as an associated const, `?` on validate rewritten as an explicit early return, named boolean for the verdict) re-applied by hand to the verifier as repaired by fix F13 (clamp constant 63; the delivered patch, kept as rf-c07-1.orig.diff.txt, no longer applies); the mithril-common KES tests pass with it')
 BP('C07', 'rf-c07-2', 'rf-c07-2.diff',
    'independent refactoring: OpCert (mithril-common/src/crypto_helper/cardano/opcert.rs): `validate` is rewritten from `if cold_vk.verify(..).is_ok() { return Ok(()) } Err(OpCertInvalid)` to a destructuring of `opcert_without_vk`, an intermediate `signed_message` local and `cold_vk.verify(&signed_message, cert_sig).map_err(|_| ')
 BP('C07', 'rf-c07-3', 'rf-c07-3.diff',
